@@ -152,7 +152,9 @@ CHECKS = {
            'run': 'TestInstants',
            'checks': {'quick': 2400, 'thorough': 96000},
            'shards': {'quick': 8, 'thorough': 16},
-           'timeout': {'quick': 600, 'thorough': 3600}}]},
+           'timeout': {'quick': 600, 'thorough': 3600}},
+           {'pkg': 'c15', 'run': 'TestPartialFrame', 'checks': {'quick': 1600, 'thorough': 64000}, 'shards': {'quick': 4, 'thorough': 16}},
+           {'pkg': 'c15', 'run': 'TestServerSideExpiry', 'checks': {'quick': 1600, 'thorough': 48000}, 'shards': {'quick': 2, 'thorough': 8}}]},
     'C13': {'level': 'exploration',
  'assumptions': ['schedules are sampled, not enumerated: the Go scheduler and the race detector see only the interleavings that actually ran; a '
                  'schedule-dependent failure is reproduced by re-running the saved plan, not deterministically',
